@@ -560,7 +560,7 @@ pub fn run(ctx: &Ctx) -> Result<Ev, String> {
         }
     }
     let shards = 32usize;
-    let per = (if ctx.thorough { 400_000 } else { 20_000 } / shards) as u32;
+    let per = (if ctx.thorough { 1_000_000 } else { 80_000 } / shards) as u32;
     let seed = ctx.seed;
     let mut total = par::run_shards("C09", shards, |s| par::prop_shard("C09", seed, s, per, &raw_macros(), |c, ev| test(c, ev, &opts)));
     total.merge(fixed);
